@@ -636,6 +636,49 @@ def r9_queue_not_reentered(ctx, rule="C03.R9"):
     ctx.require(rule, 1)
 
 
+def r12_generator_made_variables_live_with_the_call(ctx, rule="C03.R12"):
+    """`each activation has its own locals`: the variables the generator makes for a statement (the limit and
+    step of a FOR, the value a SELECT CASE selects on) belong to the activation that runs the statement - a
+    recursive call inside the loop body runs its own FOR with its own limit.  Wherever the generator builds the
+    path of a variable, the `shared` flag is the one the checker resolved for that variable (a field named
+    `shared`, or the parameter of the emitter that is handed it), or - for a name of the generator's own making -
+    the constant false.  A constant true files the variable with the module level: every activation of a
+    recursive SUB then shares one loop limit."""
+    prog = ctx.prog
+    n = 0
+    for f in sorted(prog.fns.values(), key=lambda f: f.id):
+        if f.crate != "rusty_basic" or f.body is None or "instruction_generator" not in f.id or common.is_derived(f):
+            continue
+        pv = mir.Prov(f.body)
+        for blk in f.body.blocks:
+            if blk.get("c"):
+                continue
+            for st in blk["s"]:
+                r = st.get("r", {})
+                if not (st["k"] == "assign" and r.get("k") == "agg" and r.get("a") == "adt" and r["adt"].endswith("RootPath")
+                        and len(r["ops"]) == 2):
+                    continue
+                n += 1
+                k = r["ops"][1].get("k")
+                o = mir.strip_all(pv.of_operand(r["ops"][1]))
+                if k is not None and k.get("ty") == "bool":
+                    ok = k.get("int") == 0
+                    what = "the constant %s" % k.get("s")
+                else:
+                    ok = o[0] == "param" or mir.origin_mentions(o, lambda z: z[0] == "field" and z[2] == "shared") or \
+                        mir.origin_mentions(o, lambda z: z[0] == "call" and "variable_info" in z[1])
+                    what = mir.short_origin(o)
+                name = f.path.split("::")[-1]
+                kk = sum(1 for x in ctx.obs if x.key.startswith("%s:%s" % (rule, name)))
+                ctx.decide(ok, rule, "%s:%s%s" % (rule, name, "#%d" % kk if kk else ""), "%s:%s" % (f.file, st.get("ln")),
+                           "shared = %s" % what,
+                           "%s builds a variable path with shared = %s: the variable is filed with the module level, so the "
+                           "activations of a recursive SUB / FUNCTION share it (the limit of a FOR that contains the recursive "
+                           "call is overwritten by the callee's loop)" % (name, what))
+    ctx.analysed_units(rule, root_paths=n)
+    ctx.require(rule, 5)
+
+
 def run(ctx):
     common.install(ctx)
     r1_index_stable(ctx)
@@ -652,3 +695,4 @@ def run(ctx):
     # what a call in flight has parked survives a handled error in a nested call
     from . import c05
     c05.r6_error_unwinding(ctx, "C03.R11")
+    r12_generator_made_variables_live_with_the_call(ctx)
